@@ -71,7 +71,42 @@ fn distinct_code(k: usize) -> Tree {
 pub fn step_family(ctx: &mut Ctx) {
     let mut real = Real::new();
     let names = ["EXEC.IF", "CODE.IF", "EXEC.K", "EXEC.S", "EXEC.Y", "CODE.DO", "CODE.DO*", "CODE.QUOTE", "EXEC.DUP", "EXEC.POP", "EXEC.SWAP", "EXEC.ROT", "EXEC.FLUSH"];
+    // one unfolding step of each loop instruction: while the body runs, the item directly beneath it on
+    // EXEC is the loop's own continuation, in every iteration including the last (a body may pop or
+    // duplicate it: the EXEC.POP "break" idiom), and the element / index is exposed as documented
+    let loop_names = ["EXEC.LOOP", "CODE.LOOP", "INTVECTOR.LOOP", "INDEX.INCREASE", "INDEX.CURRENT", "INDEX.DESTINATION", "INDEX.DEFINE", "INDEX.POP"];
     let maxd = if ctx.tier_thorough { 5 } else { 4 };
+    for ed in 0..=maxd.min(3) {
+        for cd in 0..=2usize {
+            for x in [vec![], vec![(0usize, 0usize)], vec![(0, 2)], vec![(1, 2), (5, 9)], vec![(2, 2), (0, 1)]] {
+                for iv in [vec![], vec![vec![]], vec![vec![7]], vec![vec![7, 8], vec![9]]] {
+                    let mut m0 = M::default();
+                    m0.e = (0..ed).map(distinct_code).collect();
+                    m0.c = (0..cd).map(|k| distinct_code(k + 10)).collect();
+                    m0.x = x.clone();
+                    m0.iv = iv.clone();
+                    m0.i = vec![3];
+                    for name in loop_names.iter() {
+                        let id = match ctx.take() {
+                            Some(id) => id,
+                            None => continue,
+                        };
+                        ctx.transitions += 1;
+                        ctx.states += 1;
+                        let out = step_once(&mut real, &with_instr(&m0, name));
+                        let v = refmodel::judge(name, &m0, &out);
+                        let okey = format!("{}|{}", name, out.key());
+                        if let Outcome::Ok(g) = &out {
+                            if !g.diff(&m0).is_empty() {
+                                ctx.nontrivial_mark(&okey);
+                            }
+                        }
+                        ctx.record(id, &okey, v, || format!("{} state {{{}}}", name, m0.key()));
+                    }
+                }
+            }
+        }
+    }
     for ed in 0..=maxd {
         for cd in 0..=maxd {
             for b in [vec![], vec![true], vec![false], vec![true, false]] {
